@@ -1,4 +1,5 @@
 import Percival.Proofs.GetoptExamples
+import Percival.Proofs.GetoptUnique
 /-!
 # C18 — command-line parsing follows the documented option grammar for every argv
 
@@ -133,5 +134,20 @@ example : (ready exLines exArgv St.fresh).opts =
     some [none, some ⟨b "-a", 2, false⟩, some ⟨b "-b", 2, true⟩, some ⟨b "--foo", 5, false⟩,
           some ⟨b "--bar", 5, true⟩, none] ∧ (ready exLines exArgv St.fresh).optMissing = 5 := by
   decide
+
+/-- **The grammar is unambiguous for sensible tables.**  `Spec.lookupLong` takes the first matching
+    option in source order; when the names are distinct, valid, and no long name contains `=`, at most one
+    option can match a word, so the order of the table is irrelevant. -/
+theorem lookup_unique (opts : List Opt)
+    (hv : ∀ o ∈ opts, ValidName o.name ∧ EqFreeLong o.name)
+    (hd : opts.Pairwise (fun a b => a.name ≠ b.name)) (w : Str) (o : Opt) (v : Option Str)
+    (ho : o ∈ opts) (hm : matchOpt o w = some v) : lookupLong opts w = some (o, v) :=
+  lookupLong_unique opts hv hd w o v ho hm
+
+example : (⟨b "--bar", true⟩ : Opt) ∈ exOpts ∧
+    matchOpt ⟨b "--bar", true⟩ (b "--bar=1") = some (some (b "1")) ∧
+    exOpts.Pairwise (fun x y => x.name ≠ y.name) ∧ EqFreeLong (b "--bar") := by
+  refine ⟨by decide, by decide, by decide, ?_⟩
+  intro _; decide
 
 end Percival.C18
